@@ -467,11 +467,13 @@ def v_for(run):
     run_skeleton(build, check)
 
 
-@harness(['C02', 'C03', 'C01', 'C13'], 'supp.nast.extract_visitor.visit_IfExp / visit_BoolOp')
+@harness(['C02', 'C03', 'C01', 'C13'], 'supp.nast.extract_visitor.visit_IfExp / visit_BoolOp / visit_Compare / visit_Assert')
 def v_conditional_expressions(run):
     """B if t else O  (arms that may bind):  t from V; B and O from T_t(V); afterwards T_B(T_t V) | T_O(T_t V).
     v0 or v1 or v2  (operands that may bind): v0 from V, v1 from T_v0(V), v2 from T_v1(T_v0 V); afterwards any prefix may have been evaluated:
-    T_v0(V) | T_v1(T_v0 V) | T_v2(T_v1(T_v0 V))"""
+    T_v0(V) | T_v1(T_v0 V) | T_v2(T_v1(T_v0 V)).
+    a < c0 < c1 < c2  (comparators that may bind): as the operands, but a and c0 are both evaluated before anything can be skipped.
+    assert t, m  (a message that may bind): m from T_t(V); afterwards T_t(V) - the message is evaluated only when the statement raises"""
     def build_ifexp():
         sk = Skeleton()
         t, b, o = sk.child('expr', 'test', effects=True), sk.child('expr', 'body', effects=True), sk.child('expr', 'orelse', effects=True)
@@ -508,6 +510,48 @@ def v_conditional_expressions(run):
         check_entries(sk, g, path, [(sk.v0, ID), (sk.v1, t0), (sk.v2, t1)], fs)
         check_exit(sk, g, v, path, joins([t0, t1, t2]), fs)
     run_skeleton(build_boolop, check_boolop)
+
+    # a < c0 < c1 < c2  (comparators that may bind): a and c0 are always evaluated, every further comparator only if the chain held so far
+    def build_compare():
+        sk = Skeleton()
+        a, c0, c1, c2 = (sk.child('expr', 'left', effects=True), sk.child('expr', 'comparator0', effects=True),
+                         sk.child('expr', 'comparator1', effects=True), sk.child('expr', 'comparator2', effects=True))
+        kw = Pos('compare')
+        sk.order(kw, a.start)
+        sk.facts += [le(a.end.t, c0.start.t), le(c0.end.t, c1.start.t), le(c1.end.t, c2.start.t)]
+        sk.node = kw.put(ast.Compare(left=a.node(), ops=[ast.Lt(), ast.Lt(), ast.Lt()], comparators=[c0.node(), c1.node(), c2.node()]))
+        sk.a, sk.c0, sk.c1, sk.c2 = a, c0, c1, c2
+        return sk
+
+    def check_compare(sk, g, v, path):
+        fs = all_facts(sk)
+        core.RUN.case = 'compare'
+        ta = sk.a.tr
+        t0 = ta.then(sk.c0.tr)
+        t1 = t0.then(sk.c1.tr)
+        t2 = t1.then(sk.c2.tr)
+        check_entries(sk, g, path, [(sk.a, ID), (sk.c0, ta), (sk.c1, t0), (sk.c2, t1)], fs)
+        check_exit(sk, g, v, path, joins([t0, t1, t2]), fs)
+    run_skeleton(build_compare, check_compare)
+
+    # assert t, m  (a message that may bind): m is evaluated from T_t(V) when the assertion has failed; what follows continues from T_t(V)
+    def build_assert():
+        sk = Skeleton()
+        t, m = sk.child('expr', 'test', effects=True), sk.child('expr', 'msg', effects=True)
+        kw = Pos('assert')
+        sk.order(kw, t.start)
+        sk.facts += [le(t.end.t, m.start.t)]
+        sk.node = kw.put(ast.Assert(test=t.node(), msg=m.node()))
+        sk.t, sk.m = t, m
+        return sk
+
+    def check_assert(sk, g, v, path):
+        fs = all_facts(sk)
+        core.RUN.case = 'assert'
+        check_entries(sk, g, path, [(sk.t, ID), (sk.m, sk.t.tr)], fs)
+        check_exit(sk, g, v, path, sk.t.tr, fs)
+    run_skeleton(build_assert, check_assert)
+    core.RUN.case = None
 
 
 @harness(['C02', 'C03', 'C01', 'C13'], 'supp.nast.extract_visitor.visit_Try')
